@@ -2080,6 +2080,13 @@ func (s *BgpServer) handleFSMMessage(peer *peer, e *fsmMsg) {
 		}
 		s.broadcastPeerState(peer, nextState, oldState, e)
 	case fsmMsgBGPMessage:
+		// A message that the FSM had read before the peer was deleted is handled
+		// after the deletion, which holds the write lock: the Adj-RIB-In has been
+		// dropped and the routes of the peer have been withdrawn by then, and
+		// nobody would ever withdraw what this message added to the RIBs.
+		if s.neighborMap[netip.MustParseAddr(peer.ID())] != peer {
+			return
+		}
 		m := e.MsgData.(*bgp.BGPMessage)
 		if m.Header.Type == bgp.BGP_MSG_UPDATE {
 			s.notifyRecvMessageWatcher(peer, e.timestamp, m)
